@@ -930,6 +930,10 @@ func checkParse(c Case, s *rt.Section) *rt.Failure {
 // entries in Go map order, which differs from run to run; two outcomes of such a source that
 // consume the same text and are permutations of each other's bytes are the same outcome.
 func sameModuloMapOrder(src string, a, b parseOut) bool {
+	// since fix 6269628 a dict prints and lists its entries in key order: nothing is tolerated any more
+	if true {
+		return false
+	}
 	if a.matched != b.matched || a.rest != b.rest || len(a.ret) != len(b.ret) {
 		return false
 	}
